@@ -298,7 +298,8 @@ def run(ctx, res):
     # error cases
     errs = [('missing file', b'local m = require("nothere")\n'), ('two strings', b'require("a","b")\n'), ('no args', b'require()\n'),
             ('non-literal', b'require(x)\n'), ('bad option', b'require("p1", {other=true})\n'), ('three args', b'require("p1", {}, 1)\n'),
-            ('option not bool', b'require("p1", {use_game_loop=1})\n')]
+            ('option not bool', b'require("p1", {use_game_loop=1})\n'), ('option name is a part of the valid one', b'require("p1", {game_loop=true})\n'),
+            ('option name is a part of the valid one (2)', b'require("p1", {use_game=false})\n'), ('option name extends the valid one', b'require("p1", {use_game_loops=true})\n')]
     d = os.path.join(ctx.tmp, 'errs')
     I.write(os.path.join(d, 'p1.lua'), b'return 1\n')
     for name, src in errs:
@@ -377,7 +378,11 @@ def run(ctx, res):
             b'()', b'("a","b")', b'("a",{})', b'("a",{use_game_loop=1})', b'("a",{other=true})', b'("a",{use_game_loop=true,x=1})', b'("a",{true})',
             b'("a",{["use_game_loop"]=true})', b'("a",{use_game_loop=true},3)', b'"a"', b'{1}', b'[[a]]', b'("a".."b")', b'(x)', b'("a", t)', b'(1)',
             b'("x\\65y")', b'([[long]])', b'("a", {use_game_loop=not x})', b' ( "a" , { use_game_loop = true } ) ', b'(require("a"))', b'("a", {use_game_loop=nil})',
-            b'("a", {use_game_loop=(true)})', b'(("a"))', b'(\'q\')', b'("a", {use_game_loop=true;})', b'("a", nil)', b'(nil)', b'(...)']
+            b'("a", {use_game_loop=(true)})', b'(("a"))', b'(\'q\')', b'("a", {use_game_loop=true;})', b'("a", nil)', b'(nil)', b'(...)',
+            # option names that are parts, extensions or re-spellings of the one valid name
+            b'("a", {game_loop=true})', b'("a", {use_game=true})', b'("a", {loop=false})', b'("a", {use=true})', b'("a", {_=true})', b'("a", {e=true})',
+            b'("a", {use_game_loops=true})', b'("a", {Use_game_loop=true})', b'("a", {use_game_loop_=true})', b'("a", {_use_game_loop=false})',
+            b'("a", {use_game_loopuse_game_loop=true})', b'("a", {o=true})']
     WRAP = [b'%s\n', b'local x = %s\n', b'print(%s)\n', b'if x then %s else y=1 end\n', b'if x then y=1 elseif z then %s end\n', b'function f() return %s end\n',
             b't={%s, k=%s, [1]=%s}\n', b'for i=1,2 do %s end\n', b'if (x) %s\n', b'while x do %s end\n', b'repeat %s until x\n', b'a[1]=%s\n', b'a=-%s\n',
             b'a=b+%s*%s\n', b'return %s\n', b'f{%s}\n', b'f"x":g(%s)\n', b'%s.x(%s)\n', b'%s %s %s\n', b'do local function g(...) %s end end\n', b'x += %s\n',
